@@ -41,4 +41,12 @@ PROPS = {
         'assumed_contracts': ['pyx12.x12file.X12Writer._get_trailer_segment'],
         'crosscheck_functions': [],
     },
+    'C16': {
+        'level': 'other',
+        'functions': [],
+        'crosscheck': False,
+        'ground': ['c16'],
+        'explanation': 'exhaustive ground evaluation: every index entry, every map file, every node of every shipped map, loaded through the real loader '
+                       'under /venv/bin/python; finite configuration, no universally quantified claim beyond it',
+    },
 }
